@@ -1,6 +1,7 @@
 package main
 
 import (
+	"fmt"
 	"math/big"
 	"strconv"
 
@@ -199,3 +200,20 @@ func l2IdxS(xs []string, x string) int {
 }
 
 var l2Two64 = new(big.Int).Lsh(big.NewInt(1), 64)
+
+// l2QueryMonitor: every public query must answer what the keeper state says (the differences
+// were collected by L2Obs while the case ran).  Reported once per case.
+func l2QueryMonitor(rep *Report, c *L2Case, prop string) {
+	e := c.Env
+	if len(e.QueryDiffs) == 0 {
+		return
+	}
+	step := len(c.Ops) - 1
+	if step < 0 {
+		step = 0
+	}
+	rep.Violate(Violation{Case: c.ID, Step: step, Sig: prop + ":query-differs-from-state",
+		What: fmt.Sprintf("%s (%d differences in this case; the first one may concern the state before the first message)", e.QueryDiffs[0], len(e.QueryDiffs)),
+		Ops:  opsCoq(c.Ops)})
+	e.QueryDiffs = nil
+}
